@@ -42,12 +42,21 @@ type RawRequest struct {
 	SendCL    bool        `json:"sendCL,omitempty"`
 	// Upgrade: after a 101 answer, UpgradePayload is written and the same number of bytes is read back (echo protocol).
 	UpgradePayload []byte `json:"-"`
+	// Proto is the protocol version on the request line ("" = HTTP/1.1; "HTTP/1.0" is the other legal one).
+	Proto string `json:"proto,omitempty"`
+	// ExpectContinue: the head (which must carry Expect: 100-continue) is written first; the body follows only after an
+	// interim 100 answer (not at all when a final answer comes instead).
+	ExpectContinue bool `json:"expectContinue,omitempty"`
 }
 
 // Bytes renders the request head and body.
 func (q *RawRequest) Bytes() []byte {
 	var b bytes.Buffer
-	fmt.Fprintf(&b, "%s %s HTTP/1.1\r\n", q.Method, q.Target)
+	proto := q.Proto
+	if proto == "" {
+		proto = "HTTP/1.1"
+	}
+	fmt.Fprintf(&b, "%s %s %s\r\n", q.Method, q.Target, proto)
 	if q.Host != "" {
 		fmt.Fprintf(&b, "Host: %s\r\n", q.Host)
 	}
@@ -101,6 +110,8 @@ func writeChunked(b *bytes.Buffer, body []byte, size int, trailers []RawHeader) 
 // RawResponse is what the raw client read.
 type RawResponse struct {
 	Err        error // no parsable response head (or watchdog)
+	Interim    []int // interim 1xx answers that preceded the final one
+	Close      bool  // the server announced it closes the connection after this response
 	BodyErr    error // the head was read but the body ended early / was malformed (Body holds what arrived)
 	Status     int
 	Proto      string
@@ -168,25 +179,71 @@ func RawDo(addr string, q *RawRequest, watchdog time.Duration) (out RawResponse)
 	}
 	defer conn.Close()
 	_ = conn.SetDeadline(time.Now().Add(watchdog))
-	wrote := make(chan error, 1)
-	go func() {
-		_, err := conn.Write(q.Bytes())
-		wrote <- err
-	}()
 	rec := &recReader{r: conn, on: true}
 	br := bufio.NewReaderSize(rec, 64<<10)
-	resp, err := http.ReadResponse(br, &http.Request{Method: q.Method})
-	if err != nil {
-		out.Err = fmt.Errorf("reading response: %v", err)
+	all := q.Bytes()
+	if q.ExpectContinue {
+		he := bytes.Index(all, []byte("\r\n\r\n")) + 4
+		if _, err := conn.Write(all[:he]); err != nil {
+			out.Err = err
+			return
+		}
+		out = readRawResponse(conn, br, rec, q, all[he:])
 		return
+	}
+	wrote := make(chan error, 1)
+	go func() {
+		_, err := conn.Write(all)
+		wrote <- err
+	}()
+	out = readRawResponse(conn, br, rec, q, nil)
+	select {
+	case <-wrote:
+	default:
+		// the server answered without reading all of the request (legal for terminated requests); closing the
+		// connection ends the writer
+	}
+	return
+}
+
+// readRawResponse reads one final response (interim 1xx answers other than 101 are skipped and counted; on 100 the
+// pending body of an Expect: 100-continue request is written).
+func readRawResponse(conn net.Conn, br *bufio.Reader, rec *recReader, q *RawRequest, pendingBody []byte) (out RawResponse) {
+	var resp *http.Response
+	for {
+		rec.on = true
+		rec.buf = rec.buf[:0]
+		if n := br.Buffered(); n > 0 {
+			b, _ := br.Peek(n)
+			rec.buf = append(rec.buf, b...)
+		}
+		var err error
+		resp, err = http.ReadResponse(br, &http.Request{Method: q.Method})
+		if err != nil {
+			out.Err = fmt.Errorf("reading response: %v", err)
+			return
+		}
+		if resp.StatusCode >= 100 && resp.StatusCode < 200 && resp.StatusCode != http.StatusSwitchingProtocols {
+			out.Interim = append(out.Interim, resp.StatusCode)
+			if resp.StatusCode == 100 && pendingBody != nil {
+				if _, err := conn.Write(pendingBody); err != nil {
+					out.Err = err
+					return
+				}
+				pendingBody = nil
+			}
+			continue
+		}
+		break
 	}
 	if i := bytes.Index(rec.buf, []byte("\r\n\r\n")); i >= 0 {
 		_, out.RawHeaders = parseHead(rec.buf[:i])
 	}
 	rec.on = false
-	rec.buf = nil
+	rec.buf = rec.buf[:0]
 	out.Status = resp.StatusCode
 	out.Proto = resp.Proto
+	out.Close = resp.Close
 	out.Header = CanonicalHeader(out.RawHeaders)
 	for _, te := range resp.TransferEncoding {
 		if te == "chunked" {
@@ -206,18 +263,52 @@ func RawDo(addr string, q *RawRequest, watchdog time.Duration) (out RawResponse)
 		}
 		return
 	}
+	var err error
 	out.Body, err = io.ReadAll(resp.Body)
 	if err != nil {
 		out.BodyErr = fmt.Errorf("reading response body: %v", err)
 	}
 	out.Trailer = resp.Trailer
-	select {
-	case <-wrote:
-	default:
-		// the server answered without reading all of the request (legal for terminated requests); closing the
-		// connection ends the writer
-	}
 	return
+}
+
+// RawDoSeq sends several requests over ONE connection and reads one response for each, in order: either the next request
+// is written after the previous response was read (keep-alive reuse) or all of them are written at once (pipelining).
+// Responses after a failure (or after the server closed the connection) carry Err.
+func RawDoSeq(addr string, qs []*RawRequest, pipelined bool, watchdog time.Duration) []RawResponse {
+	out := make([]RawResponse, len(qs))
+	conn, err := net.DialTimeout("tcp", addr, watchdog)
+	if err != nil {
+		for i := range out {
+			out[i].Err = err
+		}
+		return out
+	}
+	defer conn.Close()
+	_ = conn.SetDeadline(time.Now().Add(watchdog))
+	rec := &recReader{r: conn, on: true}
+	br := bufio.NewReaderSize(rec, 64<<10)
+	if pipelined {
+		var all []byte
+		for _, q := range qs {
+			all = append(all, q.Bytes()...)
+		}
+		go conn.Write(all)
+	}
+	for i, q := range qs {
+		if !pipelined {
+			b := q.Bytes()
+			go conn.Write(b)
+		}
+		out[i] = readRawResponse(conn, br, rec, q, nil)
+		if out[i].Err != nil || out[i].BodyErr != nil || out[i].Close {
+			for j := i + 1; j < len(out); j++ {
+				out[j].Err = fmt.Errorf("connection ended after response %d (close=%v err=%v)", i, out[i].Close, out[i].Err)
+			}
+			break
+		}
+	}
+	return out
 }
 
 // ---- raw stub upstream ----
@@ -256,6 +347,11 @@ type RawReply struct {
 	NoBodyBytes bool `json:"noBodyBytes,omitempty"`
 	// Echo: after a 101 reply, echo everything received until the peer closes.
 	Echo bool `json:"echo,omitempty"`
+	// AbortTimes: the first AbortTimes arrivals of the request are answered by closing the connection without a byte
+	// (a reused keep-alive connection dying; net/http transports retry idempotent requests once on that).
+	AbortTimes int `json:"abortTimes,omitempty"`
+	// Gate, when set, is waited for (after the request was recorded and read) before the reply is written.
+	Gate chan struct{} `json:"-"`
 }
 
 // Bytes renders the reply.
@@ -312,6 +408,8 @@ type RawStub struct {
 	seen     []RawSeen
 	byID     map[string][]int
 	scripts  map[string]*RawReply
+	aborted  map[string]int
+	done     chan struct{}
 	partial  [][]byte // bytes of request heads that never completed
 	conns    map[net.Conn]struct{}
 	probes   int64
@@ -329,7 +427,7 @@ func NewRawStub(name string) *RawStub {
 	if err != nil {
 		panic(err)
 	}
-	s := &RawStub{Name: name, ln: ln, URL: "http://" + ln.Addr().String(), byID: map[string][]int{}, scripts: map[string]*RawReply{}, conns: map[net.Conn]struct{}{}}
+	s := &RawStub{Name: name, ln: ln, URL: "http://" + ln.Addr().String(), byID: map[string][]int{}, scripts: map[string]*RawReply{}, aborted: map[string]int{}, done: make(chan struct{}), conns: map[net.Conn]struct{}{}}
 	s.wg.Add(1)
 	go s.accept()
 	return s
@@ -360,6 +458,7 @@ func (s *RawStub) Close() {
 		return
 	}
 	s.ln.Close()
+	close(s.done)
 	s.mu.Lock()
 	for c := range s.conns {
 		c.Close()
@@ -469,6 +568,22 @@ func (s *RawStub) serveConn(c net.Conn, connID int64) {
 				return
 			}
 		}
+		if reply.AbortTimes > 0 {
+			s.mu.Lock()
+			n := s.aborted[seen.ID]
+			s.aborted[seen.ID] = n + 1
+			s.mu.Unlock()
+			if n < reply.AbortTimes {
+				return
+			}
+		}
+		if reply.Gate != nil {
+			select {
+			case <-reply.Gate:
+			case <-s.done:
+				return
+			}
+		}
 		out := reply.Bytes()
 		if req.Method == "HEAD" && !reply.NoBodyBytes {
 			cp := *reply
@@ -529,6 +644,7 @@ func (s *RawStub) ProbeCount() int { return int(atomic.LoadInt64(&s.probes)) }
 func (s *RawStub) Forget(id string) {
 	s.mu.Lock()
 	delete(s.scripts, id)
+	delete(s.aborted, id)
 	for _, i := range s.byID[id] {
 		s.seen[i] = RawSeen{ID: id}
 	}
